@@ -182,7 +182,13 @@ class Gen:
             if rng.random() < 0.5:
                 kw["right"] = {"h": self.model("P1", depth + 1)}
         self.prog.append({"op": "model", "h": h, "cls": cls, "kw": kw})
-        if cls in TUPLES:
+        if cls in TUPLES and TUPLES[cls][1] <= 4 and rng.random() < 0.25:
+            # a hand-made tuple parameter whose members are given in another order than their positions
+            name, n = TUPLES[cls]
+            members = [[i, ({"h": self.pick_prior()} if rng.random() < 0.6 else _finite(rng))] for i in range(n)]
+            rng.shuffle(members)
+            self.prog.append({"op": "tuple_made", "h": h, "name": name, "members": members})
+        elif cls in TUPLES:
             name, n = TUPLES[cls]
             for i in range(n):
                 r = rng.random()
@@ -348,6 +354,8 @@ def run_program(prog, upto=None):
         elif op == "set":
             tgt = _walk_to(H[st["h"]], st["path"][:-1])
             setattr(tgt, st["path"][-1], val(st["value"]))
+        elif op == "tuple_made":
+            setattr(H[st["h"]], st["name"], af.TuplePrior(**{f"{st['name']}_{i}": val(v) for i, v in st["members"]}))
         elif op == "arith":
             # operands are held in a list so that `retrieve_name` sees no caller variable
             ops = [val(st["l"]), val(st["r"])]
